@@ -31,6 +31,7 @@ EXPLANATION = (
     "vMin to 0.99 (flux mismatch, boundary constants, success flag, template fallback).")
 
 RTOL = ATOL = 1e-6
+VB_FLOOR = 1e-3        # documented floor of the v+ bracket / of vMin (vBracketLow)
 TOL_PAIRS = [(1e-6, 1e-6), (1e-6, 1e-10), (1e-6, 1e-10)]
 TMAX, TMIN = 10.0, 0.01
 # flux mismatch allowed, relative to the larger flux:  K_FLUX * delta * gamma_+^2 gamma_-^2,
@@ -170,6 +171,7 @@ class Spy:
         self.calls = []            # (solver name, fun, result)
         self.fallback = 0
         self.matchings = []
+        self.fm_args = []          # the velocities findMatching was asked for
         self.probe_at = {}         # closure name -> points at which to evaluate it while
         self.probed = {}           # the enclosing call is still live (its variables as at
         #                            solve time): closure name -> [(x, f(x))]
@@ -204,6 +206,7 @@ class Spy:
         self.fm_orig = self.h.findMatching
 
         def fm(vw):
+            spy.fm_args.append(vw)
             r = spy.fm_orig(vw)
             spy.matchings.append(r)
             return r
@@ -254,7 +257,7 @@ def exact_matching_exists(h, vw, n=64):
     an exact deflagration/hybrid matching exists for this wall velocity.  The scan does not
     reuse the code's own bracket: vp runs from 5% of the bracket floor up to vw, keeping the
     points where the shock is ahead of the wall (vp vw <= cs^2(T+))."""
-    vpmin = 0.05 * min(h.vBracketLow, vw)
+    vpmin = 0.05 * min(VB_FLOOR, vw)
     vals = []
     for k in range(n + 1):
         vp = vpmin + (vw - vpmin) * k / n
@@ -347,7 +350,11 @@ def wall_velocities(rng, h, n):
            cb * (1 - 10 ** rng.uniform(-4, -2)), cb * (1 + 10 ** rng.uniform(-4, -2)),
            vJ - 10 ** rng.uniform(-5, -2), vJ + 10 ** rng.uniform(-5, -2), 0.99,
            rng.uniform(vJ, 0.99), rng.uniform(0.9, 0.99), vJ, vmin,
-           max(vmin, 10 ** rng.uniform(-2.7, -1.3))]        # slow walls (v+ <= 1e-2)
+           max(vmin, 10 ** rng.uniform(-2.7, -1.3)),        # slow walls (v+ <= 1e-2)
+           # the middle of the three branches (typical walls)
+           vmin + (min(cb, vJ) - vmin) * rng.uniform(0.2, 0.9),
+           min(cb, vJ) + (vJ - min(cb, vJ)) * rng.uniform(0.2, 0.9),
+           vJ + (0.99 - vJ) * rng.uniform(0.2, 0.9)]
     while len(pts) < n:
         pts.append(rng.uniform(vmin, 0.99))
     out = [v for v in pts if vmin <= v <= 0.99]
@@ -519,11 +526,11 @@ GENERIC_KEY = {"energy-flux": "flux-mismatch", "momentum-flux": "flux-mismatch",
                "fallback": "template-fallback-exact-exists"}
 # failure kinds that are CONSEQUENCES of a 2x2 solve that did not converge; only these may
 # be attributed to the recorded unconverged-* findings
-CONSEQUENCE = {"inaccurate", "not-converged", "energy-flux", "momentum-flux", "c1-rear",
+CONSEQUENCE = {"inaccurate", "not-converged", "shock-misses-Tn", "energy-flux", "momentum-flux", "c1-rear",
                "c2-rear", "range", "residual-not-small"}
 
 
-def failure_key(h, vw, kind, fallback, state, slow_fallback_mech=False):
+def failure_key(h, vw, kind, fallback, state, slow_fallback_mech=False, resid_mech=False):
     """key of a failure for known_findings.json.  A recorded class is assigned only when its
     MECHANISM is observed on this input (see solve_state): the last 2x2 hybr solve of this
     very call failed although it was started from the code's own template-based guess, and
@@ -534,21 +541,21 @@ def failure_key(h, vw, kind, fallback, state, slow_fallback_mech=False):
     slow-wall-template-fallback needs: same corner, the template fallback was taken, and an
     exact matching with v+ below vBracketLow exists (the bracket floor is the cause).
     The same symptom with any other cause keeps its generic key and is a new violation."""
-    corner = h.vMin == h.vBracketLow and vw < 1.5 * h.vBracketLow
+    corner = h.vMin == VB_FLOOR and vw < 1.5 * VB_FLOOR
     if fallback:
         if h.vJ * (1 - 1e-8) <= vw <= h.vJ and kind in ("energy-flux", "momentum-flux",
                                                         "c1-rear", "c2-rear", "fallback"):
             # at vw == vJ (to 1e-8) the hybrid branch finds no bracket and hands over to the
             # template model
             return "template-fallback-at-vJ"
-        if h.vMin == h.vBracketLow and slow_fallback_mech and kind in (
+        if slow_fallback_mech and kind in (
                 "energy-flux", "momentum-flux", "fallback", "c1-rear", "c2-rear", "range"):
             # mechanism: an exact matching exists whose v+ lies below the bracket floor
             # vBracketLow (vw up to vBracketLow * vw/v+, not only vw < 1.5e-3)
             return "slow-wall-template-fallback"
         return GENERIC_KEY.get(kind, kind)
-    if kind == "residual-not-small" and state == "ok" and h.vMin == h.vBracketLow and \
-            vw < 3.2 * h.vBracketLow:
+    if (kind == "residual-not-small" or (resid_mech and kind in CONSEQUENCE)) and \
+            state == "ok" and h.vMin == VB_FLOOR and vw < 3.2 * VB_FLOOR:
         # hybr reports success (its step criterion is met) at a point where the residual
         # is not small against vp^2 <= 1e-5 (vw < 3.2e-3): third member of the slow-wall
         # family
@@ -582,6 +589,17 @@ RECORDED = [   # inputs of the recorded findings, replayed first on every run
 ]
 
 RELRES_MAX = 1e-3   # largest residual / (vp^2 or vm^2) of a solve that reports success
+K_SHOCK = 50.0      # |T_shock/Tn - 1| <= K_SHOCK * shock_tolerance (calibrated, see evidence)
+
+
+def shock_tolerance(h, vp, Tp):
+    """accuracy of T_shock(vw, vp, Tp) = Tn implied by the tolerances: the shooting root v+ is
+    found to atol + rtol v+ (root_scalar), the shock ODE and the front condition to rtol +
+    atol/Tn; a relative error dv+/v+ moves T_shock by about the heating"""
+    heating = abs(Tp / h.Tnucl - 1)
+    return (h.rtol + h.atol / h.Tnucl) + (h.rtol + h.atol / vp) * max(heating, 1e-3)
+
+
 K_ACC = 200.0     # returned (Tp, Tm) within K_ACC * xtol * Tn (+1e-9 rel.) of an exact zero of
 #                   the captured residual: hybr's xtol (= self.atol) bounds the relative step in
 #                   the mapped variables, dT <= (TMax-TMin)/(2 pi) * xtol ~ 1.6 Tn xtol
@@ -599,8 +617,9 @@ def check_point(ctx, case, th, h, vw, stats=None):
     bads = []
 
     def report(state="ok", slow_mech=False, fallback=0, **extra):
+        resid = any(k == "residual-not-small" for _, k in bads)
         for what, kind in bads:
-            key = failure_key(h, vw, kind, fallback, state, slow_mech)
+            key = failure_key(h, vw, kind, fallback, state, slow_mech, resid)
             d = dict(label)
             d.update(what_fails=what, kind=kind, solve_state=state, **extra)
             ctx.fail_input("%s [%s vw=%.6g %s]" % (what, case["kind"], vw, branch), d,
@@ -640,6 +659,9 @@ def check_point(ctx, case, th, h, vw, stats=None):
         return report(state)
     vp, vm, Tp, Tm = (float(x) for x in spy.matchings[-1])
     ctx.count("matching", dict(case=case, vw=vw), bucket=case["kind"] + "/" + branch)
+    if any(not (isinstance(a, (int, float)) and float(a) == vw) for a in spy.fm_args):
+        bads.append(("findHydroBoundaries(%.15g) asked findMatching for %r" % (
+            vw, spy.fm_args), "matching-of-another-velocity"))
     rec.update(vp=vp, vm=vm, Tp=Tp, Tm=Tm, fallback=spy.fallback, state=state)
     label.update(returned=[vp, vm, Tp, Tm], fallback=spy.fallback,
                  success=bool(h.success))
@@ -655,12 +677,12 @@ def check_point(ctx, case, th, h, vw, stats=None):
             return rec
         bads.append(("returned values out of range: %r" % ((vp, vm, Tp, Tm),), "range"))
         return report(state, fallback=spy.fallback,
-                      slow_mech=bool(spy.fallback) and h.vMin == h.vBracketLow
-                      and vw < 1.5 * h.vBracketLow)
+                      slow_mech=bool(spy.fallback) and h.vMin == VB_FLOOR
+                      and vw < 1.5 * VB_FLOOR)
     if 0 < vp <= 10 * h.atol and branch != "detonation":
         ctx.count("degenerate_edge_skipped")
         return rec
-    if h.vMin > h.vBracketLow and vw < 1.02 * h.vMin and not (
+    if h.vMin > VB_FLOOR and vw < 1.02 * h.vMin and not (
             float(th.csqLowT(Tm)) > 0 and float(th.wLowT(Tm)) > 0):
         # at a shock-limited vMin the exact solution has T- -> TMinHydro; if the equation of
         # state is not physical there (w <= 0 or cs^2 <= 0) the point is outside the
@@ -730,7 +752,9 @@ def check_point(ctx, case, th, h, vw, stats=None):
                 b, fl = bound
                 rec["bound"] = b
                 if stats is not None and b + fl > 0:
-                    rec["mis_over_bound"] = max(abs(e1 - e2), abs(m1 - m2)) / (b + fl)
+                    mx = max(abs(e1 - e2), abs(m1 - m2))
+                    rec["mis_over_bound"] = mx / (b + fl)
+                    rec["floor_share"] = fl / (b + fl)      # how much of the bound is floor
                 if abs(e1 - e2) > b * (1 + 1e-6) + fl:
                     bads.append((
                         "energy flux mismatch %.6g exceeds the bound %.6g implied by the "
@@ -779,6 +803,23 @@ def check_point(ctx, case, th, h, vw, stats=None):
                         "fun^2 = %.3g); fluxes differ by %.3g / %.3g" % (
                             Tp, Tm, dist, Tz[0], Tz[1], tolz, info["status"], info["ssq"],
                             re_, rm_), "inaccurate"))
+    # ---- the matching belongs to the REQUESTED velocity: the shock launched by (vw, vp, Tp)
+    #      reaches the nucleation temperature (ties hybrids to vw as well) -----------------
+    shock_ok = None
+    if branch != "detonation":
+        try:
+            Tsh = float(h.solveHydroShock(vw, vp, Tp))
+            dsh = abs(Tsh / h.Tnucl - 1)
+            tolsh = K_SHOCK * shock_tolerance(h, vp, Tp)
+            rec["shock_over_tol"] = dsh / tolsh
+            shock_ok = dsh <= tolsh
+            ctx.count("shock_condition", bucket="fallback" if spy.fallback else "solved")
+            if not shock_ok and not spy.fallback:
+                bads.append(("the shock launched by (vw=%.9g, vp=%.9g, Tp=%.9g) reaches "
+                             "%.9g, not Tn=%.9g (rel %.3g > %.3g)" % (
+                                 vw, vp, Tp, Tsh, h.Tnucl, dsh, tolsh), "shock-misses-Tn"))
+        except Exception as ex:
+            ctx.count("shock_condition", bucket="raised:" + type(ex).__name__)
     # ---- fluxes of a template fallback (an approximation unless the EOS is template) ------
     slow_mech = False
     if spy.fallback:
@@ -837,10 +878,16 @@ def check_point(ctx, case, th, h, vw, stats=None):
         ctx.count("fallback_used", bucket=branch)
         exists, where = exact_matching_exists(h, vw)
         rec["fallback_exact_exists"] = exists
+        # is the returned (fallback) matching itself an exact one?  both fluxes conserved
+        # (judged above) and its shock reaches Tn: then nothing was approximated
+        returned_exact = shock_ok is True and re_ <= tolc and rm_ <= tolc
+        rec["fallback_result_exact"] = returned_exact
         if exists:
-            slow_mech = where[1] <= h.vBracketLow * (1 + 1e-9) or where[0] < h.vBracketLow
             ex = refine_exact(h, vw, where)
-            if ex is not None:
+            # mechanism of slow-wall-template-fallback: the exact v+ lies below the recorded
+            # bracket floor 1e-3 (refined root, not the scan cell)
+            slow_mech = ex is not None and ex[0] < VB_FLOOR
+            if ex is not None and not returned_exact:
                 dev = max(abs(a - b) / max(abs(b), 1e-300) for a, b in zip(
                     (vp, Tp, Tm), (ex[0], ex[2], ex[3])))
                 # the shooting residual is known to ~rtol, so v+ is known to ~rtol ABSOLUTE
@@ -862,6 +909,11 @@ def check_point(ctx, case, th, h, vw, stats=None):
 def check_model_constants(ctx, case, th, h):
     """vJ and vMin are taken from the code to label branches and to choose the range: judge
     them where an independent value exists"""
+    if h.vBracketLow != VB_FLOOR or not (h.vMin == VB_FLOOR or h.vMin > VB_FLOOR):
+        ctx.fail_input("vBracketLow = %r, vMin = %r: the documented floor is 1e-3 [%s]" % (
+            h.vBracketLow, h.vMin, case["kind"]), dict(case=case, vw=h.vMin, kind="floor",
+                                                       rtol=h.rtol, atol=h.atol),
+            key="vBracketLow-changed")
     if case["kind"] in ("template", "bag"):
         # constant sound speeds: the template closed form (C15: Chapman-Jouguet point) is exact
         ctx.count("vJ_checked")
@@ -869,7 +921,7 @@ def check_model_constants(ctx, case, th, h):
             ctx.fail_input("Jouguet velocity %.12g, closed form %.12g [%s]" % (
                 h.vJ, h.template.vJ, case["kind"]), dict(case=case, vw=h.vJ, kind="vJ",
                                                          rtol=h.rtol, atol=h.atol), key="vJ")
-    if h.vMin > 2 * h.vBracketLow and case["kind"] in ("template", "bag"):
+    if h.vMin > 2 * VB_FLOOR and case["kind"] in ("template", "bag"):
         # shock-limited minimal velocity: 10% below it no matching may exist (equations of
         # state that are physical at every temperature only)
         ctx.count("vMin_checked")
@@ -893,7 +945,7 @@ def call_result(h, method, vw):
         return ("raised", type(ex).__name__)
 
 
-def check_histories(ctx, case, th, pristine, rng, full=False):
+def check_histories(ctx, case, th, pristine, rng, full=False, factory=None):
     """call histories on ONE object against a fresh object per call: findMatching and
     findHydroBoundaries are functions of vw only (the class keeps no state they may read)"""
     import copy
@@ -918,8 +970,11 @@ def check_histories(ctx, case, th, pristine, rng, full=False):
                     if not 1e-3 <= vw <= 0.99:
                         continue
                     meth = meths[k] if vw >= h0.vMin else "findMatching"
-                    fresh = copy.copy(h0)
-                    fresh.doesPhaseTraceLimitvmax = [False, False]
+                    if factory is not None:
+                        fresh = factory()      # newly built model, template and solver
+                    else:
+                        fresh = copy.copy(h0)
+                        fresh.doesPhaseTraceLimitvmax = [False, False]
                     a, b = call_result(shared, meth, vw), call_result(fresh, meth, vw)
                     hist.append((meth, vw))
                     ctx.count("history_call", bucket=name)
@@ -1105,9 +1160,10 @@ def correspondence_rows(ctx, case, th, h, rng):
 
 def generate(ctx):
     srcs = {n: vlib.read_src(n) for n in ("hydrodynamics.py", "hydrodynamicsTemplateModel.py",
-                                          "helpers.py")}
+                                          "helpers.py", "equationOfMotion.py")}
     text, spans, notes, _ = gen_hydro_match.generate(
-        srcs["hydrodynamics.py"], srcs["hydrodynamicsTemplateModel.py"], srcs["helpers.py"])
+        srcs["hydrodynamics.py"], srcs["hydrodynamicsTemplateModel.py"], srcs["helpers.py"],
+        srcs["equationOfMotion.py"])
     ctx.write("HydroGen.v", text, sources=dict(
         files={"src/WallGo/" + n: vlib.sha(s) for n, s in srcs.items()}, spans=spans,
         cuts=list(notes)))
@@ -1140,7 +1196,7 @@ def run(ctx):
             ctx.log("recorded input raised", json.dumps(case), traceback.format_exc())
             ctx.broken.append("harness: recorded input raised")
     nmodels = ctx.n(14, 160)
-    nvw = ctx.n(12, 18)
+    nvw = ctx.n(15, 21)
     # ---- certified correspondence: files written and coqc started now, collected below --
     procs = []
     if proved:
@@ -1211,7 +1267,10 @@ def run(ctx):
         try:
             check_model_constants(ctx, case, th, pristine)
             if m % ctx.n(2, 1) == 0:
-                check_histories(ctx, case, th, pristine, rng, full=not ctx.quick)
+                check_histories(
+                    ctx, case, th, pristine, rng, full=not ctx.quick,
+                    factory=lambda: make_hydro(build_model(case), case["rtol"], case["atol"],
+                                               case["tmax"], case["tmin"]))
         except Exception:
             ctx.log("harness exception in histories", json.dumps(case),
                     traceback.format_exc())
@@ -1244,7 +1303,8 @@ def run(ctx):
     good = [r for r in stats if "bad" not in r]
     for fld, name in (("mis_over_bound", "flux mismatch / bound derived from the residual"),
                       ("dist_over_tol", "distance to the exact zero / tolerance"),
-                      ("relres", "relative residual of a successful 2x2 solve")):
+                      ("relres", "relative residual of a successful 2x2 solve"),
+                      ("shock_over_tol", "shock condition at the requested vw / tolerance")):
         vals = [r for r in good if fld in r]
         if vals:
             w = max(vals, key=lambda r: r[fld])
